@@ -83,7 +83,7 @@ fn family(rng: &mut Rng, k: u64) -> (String, Vec<String>) {
         0 => ("same-6-prefix".into(), (0..60 + rng.below(200)).map(|i| format!("longfilename{}.txt", i)).collect()),
         1 => {
             let n = 14 + rng.usize_below(8);
-            let pre = *rng.pick(&["collide-", "ab", "x", "Te"]);
+            let pre = *rng.pick(&["collide-", "ab", "x", "Te", "~$lock-", "a~dummy-"]);
             ("same-prefix-ext-hash".into(), colliding_names(rng, pre, ".txt", n))
         }
         2 => (
